@@ -4,6 +4,7 @@ CONSTANTS
   MaxWork = 1
   MaxDup = 0
   Verdicts = {"ok", "bad_ctx"}
+  Heavy = 0
   PreFix = TRUE
   Emit = FALSE
 INVARIANT NoPreloadPanic
